@@ -137,7 +137,7 @@ for d, tag, rnd in [(d, tag, rnd) for (inc, tag, rnd) in INCS for d in sorted(gl
             "missed_by_first_version_of_the_check": mid in MISSED_FIRST,
         }
         json.dump(meta, open(os.path.join(out, "meta.json"), "w"), indent=1)
-        rows.append((mid, prop, meta["title"][:90], caught, mid in MISSED_FIRST))
+        rows.append((mid, prop, meta["title"][:90].replace("|", "\\|"), caught, mid in MISSED_FIRST))
 subprocess.run(["git", "-C", "/repo", "worktree", "remove", "--force", WT], capture_output=True)
 print(len(rows), "kept")
 tab = ["| id | property | change | caught by (quick) | first missed -> check strengthened |", "|---|---|---|---|---|"]
